@@ -150,7 +150,8 @@ class Sim:
         truth = {}
         for t in self.sp.trans:
             if t.guard and t.src in conf:
-                truth[t.i] = st.flag(num, den)
+                # an exact duplicate shares the code, hence the guard outcome, of the transition it duplicates
+                truth[t.i] = truth[t.ci] if t.ci != t.i else st.flag(num, den)
         return truth
 
     # ---- one step
